@@ -111,7 +111,13 @@ type world struct {
 
 var cur atomic.Pointer[world]
 
+// listeners registered on any bus so far (counted in every mode)
+var listenAdded atomic.Int64
+
 func hook(point string, obj any, args ...any) {
+	if point == "listen.added" {
+		listenAdded.Add(1)
+	}
 	w := cur.Load()
 	if w == nil || !w.forced {
 		return
@@ -694,6 +700,7 @@ func runStorm(c caseT) obsT {
 	if col != nil && o.WriterStall == 0 {
 		_, _ = col.Update(ids[2], msg(7), resource.WithCreateIfAbsent())
 		ctx, cancel := context.WithCancel(context.Background())
+		listensBefore := listenAdded.Load()
 		ch := col.PullID(ctx, ids[2], resource.WithBackpressure(true), resource.WithUpdatesOnly(c.Iter%2 == 1))
 		got := make(chan struct{})
 		first := make(chan struct{})
@@ -706,18 +713,17 @@ func runStorm(c caseT) obsT {
 			}
 			close(got)
 		}()
-		// The subscription registers from a goroutine of its own: it is established once its first event has
-		// arrived -- the seed, or (updates only) one of the updates made until one comes through.  A fixed pause
-		// is not that: on a busy machine the removal could precede the registration and never be seen.
+		// The subscription registers from a goroutine of its own: it is established once its listener is on the
+		// collection's bus (hook "listen.added"; nobody else subscribes at this point of the storm).  A fixed
+		// pause is not that: on a busy machine the removal could precede the registration and never be seen.
+		// Nothing is written in between, so that an updates-only subscriber has not been sent the item.
 		established := false
-		for k := 0; k < 500 && !established; k++ {
-			select {
-			case <-first:
-				established = true
-			case <-time.After(10 * time.Millisecond):
-				_, _ = col.Update(ids[2], msg(8+k))
+		for deadline := time.Now().Add(5 * time.Second); !established && time.Now().Before(deadline); {
+			if established = listenAdded.Load() > listensBefore; !established {
+				time.Sleep(50 * time.Microsecond)
 			}
 		}
+		_ = first
 		_, _ = col.Delete(ids[2], resource.WithAllowMissing(true))
 		select {
 		case <-got:
